@@ -68,6 +68,11 @@ func (root *Root) ResolveExecutable(
 	// or just a plain fmt.Errorf() return.
 
 	op := exe.Ops[opName]
+	if len(opName) == 0 && 1 < len(exe.Ops) {
+		// Without a name only a lone operation can be meant, an anonymous
+		// one beside others is no more the one than they are.
+		op = nil
+	}
 	if op == nil {
 		if len(opName) == 0 && len(exe.Ops) == 1 {
 			for _, o := range exe.Ops {
